@@ -29,6 +29,9 @@ def get(name):
     elif name == "C19":
         from .engine_profile import ProfileEngine
         e = ProfileEngine()
+    elif name == "C20":
+        from .engine_map import MapEngine
+        e = MapEngine()
     else:
         raise KeyError(name)
     _cache[name] = e
